@@ -15,6 +15,7 @@ import OFV.Proofs.C18Async
 import OFV.Proofs.C18Pws4
 import OFV.Proofs.C18Pws5
 import OFV.Proofs.C18Binned
+import OFV.Proofs.C18Valid
 
 namespace OFV.C18
 open OFV.Model.C18 OFV.Spec.C18 OFV.Proofs.C18
@@ -169,8 +170,7 @@ call does not raise, and for every four labels whose bin indices XOR to 0 (the l
 symmetries) one of their three splits is co-scheduled.  Same bin: `pws_covers` through `_parallel_iter`;
 two bins: `pair_within_spec` through `_asynchronous_iter`; four bins: one of the three pairings uses a
 gap below `num_bins / 2` (the two numbers with the top bit set XOR to one without), and the cross pairs of
-`pair_between_spec` are brought together by `_asynchronous_iter`.
-Open: that every yield is a partial matching (checked by the oracle). -/
+`pair_between_spec` are brought together by `_asynchronous_iter`. -/
 theorem pws_binned_covers (bins : List (List L)) (s : Nat) (hlen : bins.length = 2 ^ s)
     (hnd : bins.flatten.Nodup) (hnn : none ∉ bins.flatten) (hsome : ∃ b ∈ bins, b ≠ []) :
     (pwsBinned bins).2 = true ∧
@@ -190,6 +190,23 @@ theorem pws_symmetric_covers (nf ns : Nat) (hnf : 1 ≤ nf) :
       (i1 % 2 ^ ns) ^^^ (i2 % 2 ^ ns) ^^^ (i3 % 2 ^ ns) ^^^ (i4 % 2 ^ ns) = 0 →
       quadOk (pwsSymmetric nf ns).1 (some i1) (some i2) (some i3) (some i4) = true :=
   OFV.Proofs.C18Binned.symmetric_covers nf ns hnf
+
+/-- `pair_within_simultaneously_binned`: the full Spec predicate the oracle evaluates — the call does not
+raise, every yield uses no label twice and only given labels (it takes at most one result of every
+iterator of `_parallel_iter` / `_asynchronous_iter`), and every four labels whose bin indices XOR to 0
+have a co-scheduled split. -/
+theorem pws_binned_spec (bins : List (List L)) (s : Nat) (hlen : bins.length = 2 ^ s)
+    (hnd : bins.flatten.Nodup) (hnn : none ∉ bins.flatten) (hsome : ∃ b ∈ bins, b ≠ []) :
+    (pwsBinned bins).2 = true ∧ quadsCovered bins (pwsBinned bins).1 = true :=
+  OFV.Proofs.C18Valid.binned_spec (bins := bins) (s := s) ⟨hlen, hnd, hnn, hsome⟩
+
+/-- `pair_within_simultaneously_symmetric`: the full Spec predicate, all `num_fermions ≥ 1`, all
+`num_symmetries` (bins: Majorana `i` in bin `i mod 2^num_symmetries`). -/
+theorem pws_symmetric_spec (nf ns : Nat) (hnf : 1 ≤ nf) :
+    (pwsSymmetric nf ns).2 = true ∧
+      quadsCovered ((List.range (2 ^ ns)).map (fun b =>
+        ((List.range (2 * nf)).filter (fun i => i % 2 ^ ns = b)).map some)) (pwsSymmetric nf ns).1 = true :=
+  OFV.Proofs.C18Valid.symmetric_spec nf ns hnf
 
 example : quadOk (pwsSymmetric 4 1).1 (some 0) (some 2) (some 3) (some 7) = true :=
   (pws_symmetric_covers 4 1 (by decide)).2 0 2 3 7 (by decide) (by decide) (by decide) (by decide)
